@@ -133,3 +133,61 @@ Proof.
   - rewrite metric_ones in * by nra. replace (/ (sigma * mu)) with (/ (mu * sigma)) in Pq by (f_equal; ring).
     apply (rule_composition k n); auto.
 Qed.
+
+(* ================= proximal_convex_conj_l2(space, lam, g) ================= *)
+(* conjugate of  lam ||. - g||_w :  indicator of the lam-ball of the space norm plus <., g>_w *)
+Definition F_ccl2 (lam : R) (g w y : Rvec) : option R :=
+  if Rleb (wnormsq w y) (lam * lam) then Some (wdot w y g) else None.
+
+Lemma sqrt_le_of_sq a lam : 0 <= a -> 0 < lam -> a <= lam * lam -> sqrt a <= lam.
+Proof.
+  intros Ha Hl H. rewrite <- (sqrt_square lam) by lra. apply sqrt_le_1_alt. assumption.
+Qed.
+
+Lemma wdot_vadd_r' n (w z x y : Rvec) : length w = n -> length z = n -> length x = n -> length y = n ->
+  wdot w z (vadd x y) = wdot w z x + wdot w z y.
+Proof. intros. rewrite wdot_sym, (wdot_vadd_l n) by assumption. rewrite (wdot_sym w x), (wdot_sym w y). reflexivity. Qed.
+
+Theorem l2_conj_pair lam n g w : 0 < lam -> allpos w -> length w = n -> length g = n ->
+  is_conj n w (F_l2 lam g w) (F_ccl2 lam g w).
+Proof.
+  intros Hl Pw Hw Hg y Hy. unfold F_l2, F_ccl2.
+  assert (HN : 0 <= wnormsq w y) by (apply wnormsq_nonneg; assumption).
+  set (N := sqrt (wnormsq w y)). assert (HN0 : 0 <= N) by apply sqrt_pos.
+  assert (HNN : N * N = wnormsq w y) by (apply sqrt_sqrt; assumption).
+  assert (Hsplit : forall z, length z = n -> wdot w y z = wdot w y g + wdot w y (vsub z g)).
+  { intros z Hz. rewrite (wdot_vsub_r' n) by assumption. lra. }
+  split.
+  - intros z v Hz [= <-]. destruct (Rleb_spec (wnormsq w y) (lam * lam)) as [H1|H1]; cbn [ele]; [|exact I].
+    rewrite (Hsplit z Hz).
+    pose proof (cauchy_schwarz n w y (vsub z g) Pw Hw Hy ltac:(auto with vlen)) as CS. fold N in CS.
+    pose proof (sqrt_le_of_sq _ lam HN Hl H1) as S1. fold N in S1.
+    pose proof (sqrt_pos (wnormsq w (vsub z g))) as S2. nra.
+  - intros M HM.
+    assert (M0 : wdot w y g <= M).
+    { specialize (HM g _ Hg eq_refl). rewrite (vsub_self n), (wnormsq_zero_vec n), sqrt_0 in HM by assumption. lra. }
+    destruct (Rleb_spec (wnormsq w y) (lam * lam)) as [H1|H1]; cbn [ele]; [assumption|].
+    apply Rnot_le_lt in H1.
+    assert (HN1 : lam < N).
+    { destruct (Rlt_dec lam N) as [|C]; [assumption|]. exfalso. apply Rnot_lt_le in C. nra. }
+    set (t := (M - wdot w y g + 1) / (N * (N - lam))).
+    assert (Ht : 0 < t) by (unfold t; apply Rdiv_lt_0_compat; nra).
+    specialize (HM (vadd g (vscal t y)) _ ltac:(auto with vlen) eq_refl).
+    rewrite (vsub_vadd_cancel n) in HM by auto with vlen.
+    rewrite (wdot_vadd_r' n), (wdot_vscal_r' n) in HM by auto with vlen.
+    rewrite (sqrt_wnormsq_vscal n) in HM by (auto; lra).
+    fold (wnormsq w y) in HM. fold N in HM. rewrite <- HNN in HM.
+    assert (t * (N * N) - lam * (t * N) = M - wdot w y g + 1) by (unfold t; field; split; lra).
+    lra.
+Qed.
+
+(* proximal_convex_conj_l2(space, lam, g) = proximal_convex_conj(proximal_l2(space, lam, g)) is a sound factory of
+   that conjugate *)
+Theorem ccl2_factory_sound lam n g w : 0 < lam -> allpos w -> length w = n -> length g = n ->
+  sound n w (F_ccl2 lam g w)
+        (prox_convex_conj (fun s x => needs_scalar s (fun sg => Ok (@prox_l2 R _ _ w lam (Some g) sg x)))).
+Proof.
+  intros Hl Pw Hw Hg. apply (sound_convex_conj n w (F_l2 lam g w)); auto.
+  - apply l2_conj_pair; assumption.
+  - intros sigma x Hs Hx. eexists. split; [cbn [needs_scalar]; reflexivity|]. apply l2_factory_prox; auto.
+Qed.
